@@ -63,6 +63,9 @@ struct hist_case {
 	int target, rate, fmt, smix_chn, via_mem;
 	unsigned rng;
 	struct c06_script hist, ctl;
+	/* optional earlier player run on the SAME loaded module (reused context only) */
+	int pre_rate, pre_fmt, pre_end;
+	struct c06_script prerun;
 };
 
 static int run_hist(const struct hist_case *hc)
@@ -110,6 +113,15 @@ static int run_hist(const struct hist_case *hc)
 	if (oa.h != ob.h) {
 		printf("oracle_fail loaded_info %016llx %016llx\n", (unsigned long long)oa.h, (unsigned long long)ob.h);
 		bad = 1;
+	}
+	if (hc->prerun.n > 0) {
+		/* B plays the freshly loaded module for a while, then the player is started again on both */
+		op.kind = OP_START; op.a = hc->pre_rate; op.b = hc->pre_fmt;
+		c06_apply(B, &op, &mods, &junk);
+		apply_script(B, &hc->prerun, &junk);
+		if (hc->pre_end)
+			xmp_end_player(B);
+		printf("prerun frames %ld\n", junk.frames);
 	}
 	op.kind = OP_START; op.a = hc->rate; op.b = hc->fmt;
 	c06_apply(A, &op, &mods, &oa);
@@ -173,6 +185,24 @@ static void gen_hist(struct hist_case *hc, int maxhist)
 	hc->rng = (unsigned)vrng_next() | 1;
 	c06_gen_history(&hc->hist, vrng_range(1, maxhist), mods.n);
 	c06_gen_control(&hc->ctl, vrng_range(3, 14));
+	hc->prerun.n = 0;
+	if (vrng_chance(40)) {
+		int i, k = 0;
+		hc->pre_rate = c06_rates[vrng_below(5)];
+		hc->pre_fmt = vrng_below(8);
+		hc->pre_end = vrng_chance(50);
+		c06_gen_control(&hc->prerun, vrng_range(2, 12));
+		/* settings that deliberately stay until the next load are not part of a player run */
+		for (i = 0; i < hc->prerun.n; i++) {
+			struct c06_op *o = &hc->prerun.op[i];
+			if (o->kind == OP_TEMPO || (o->kind == OP_SETPLAYER && (o->a == XMP_PLAYER_MODE || o->a == XMP_PLAYER_CFLAGS)))
+				continue;
+			if (o->kind == OP_FRAMES)
+				o->a *= vrng_range(1, 12);
+			hc->prerun.op[k++] = *o;
+		}
+		hc->prerun.n = k;
+	}
 }
 
 static void print_hist(int id, const struct hist_case *hc)
@@ -180,6 +210,10 @@ static void print_hist(int id, const struct hist_case *hc)
 	printf("case %d hist %s rate %d fmt %d smix %d mem %d rng %u\n", id, mods.path[hc->target], hc->rate, hc->fmt,
 		hc->smix_chn, hc->via_mem, hc->rng);
 	print_script("H", &hc->hist);
+	if (hc->prerun.n > 0) {
+		printf("PR %d %d %d\n", hc->pre_rate, hc->pre_fmt, hc->pre_end);
+		print_script("R", &hc->prerun);
+	}
 	print_script("C", &hc->ctl);
 }
 
@@ -336,6 +370,8 @@ static int replay(const char *file)
 		}
 		if (!strncmp(line, "H ", 2)) s = &hc->hist;
 		else if (!strncmp(line, "C ", 2)) s = &hc->ctl;
+		else if (!strncmp(line, "R ", 2)) s = &hc->prerun;
+		else if (sscanf(line, "PR %d %d %d", &hc->pre_rate, &hc->pre_fmt, &hc->pre_end) == 3) continue;
 		if (s && s->n < C06_MAXOPS) {
 			struct c06_op *op = &s->op[s->n];
 			if (c06_parse_op(body, op) == 0) {
